@@ -19,7 +19,9 @@ EXTENDS Text, Json
 
 Sources == <<"$A", "(list $A $B)", "'($A)", "[$A {:k $A}]", "(str \"$A\" $A)", "; $A\n$A", "(quote ($A-B $A_B $A))",
              "$UNKNOWN", "\n$A", ";; $A 5\n$A", "(f $A $A)", "(do $A) ; $B", "[$A\n$B]", ";; $B 7\n\n$B", "$A ;; $A 1",
-             "\"a\n$A\"", "(quote $1)", "{:k $A-B}", "¬$A¬", "($B $A)", "  $A", ";; comment\n$A", "#{$A}", "(fn [] $A)">>
+             "\"a\n$A\"", "(quote $1)", "{:k $A-B}", "¬$A¬", "($B $A)", "  $A", ";; comment\n$A", "#{$A}", "(fn [] $A)",
+             \* multi-line raw strings of the source holding comment-looking and preamble-looking lines
+             "[$A ¬a\n; b $A\n;; $A 1\nc¬]", "(str ¬\n   ; y\nz¬ $A)", "¬x\n\n;; $B 2\n¬ $A">>
 
 Values == <<"1", "nil", "-5", "\"s\"", "\"a\\\"b\"", "\"a\\\\b\"", "\"a;b\"", "\"(a)\"", "\"a\\nb\"", "\"{\\\"a\\\":1}\"",
             "\"{\\\"a\\\":\\n1}\"", "\"{\\\"a\\\":1}\\n\\n;; $B 1\\n\\n{\\\"b\\\":2}\"", "\"x\\n\\n;; $B 1\"", "sym", "$B", ":k",
